@@ -8,7 +8,8 @@ pub struct RingBuffer {
 
 impl RingBuffer {
     pub fn new(size: usize) -> Self {
-        let buffer = vec![0; size];
+        // write_size() and read_size() need at least one byte
+        let buffer = vec![0; size.max(1)];
         Self {
             buffer,
             producer: 0,
